@@ -5,6 +5,7 @@ import struct
 
 from lib.coqrun import z, zlist, nat, boolean, string, lst, pairs
 from lib.main import Case
+from lib.pyx import pyexn
 
 IMPORTS = ("From PM.theories Require Import Base Expr Store Exec ExecSpec ExecView CorrExec.\n"
            "From PM.Generated Require Import GenStore GenExec.\n"
@@ -413,10 +414,17 @@ class History(object):
         self.fe += 1
         self.fctx.begin()
         n0 = len(self.h.sent)
-        fn(self.h, req)
-        if len(self.h.sent) != n0 + 1:
-            raise RuntimeError("front-end %s sent %d responses" % (name, len(self.h.sent) - n0))
-        o = observe(self.h.sent[-1])
+        try:
+            fn(self.h, req)
+            escaped = None
+        except Exception as e:  # noqa: BLE001 — an exception escaping the front-end wrapper is an observation
+            escaped = pyexn(e)
+        if escaped is not None:
+            o = ("Escaped-" + escaped, 0, [])
+        elif len(self.h.sent) != n0 + 1:
+            o = ("Responses-%d" % (len(self.h.sent) - n0), 0, [])
+        else:
+            o = observe(self.h.sent[-1])
         self.last_obs = o
         self.items.append("HReq (%s) %s (%s) %s" % (wire_term(w), attrs_term(a), obs_term(o), boolean(self.fctx.raised)))
         self.desc.append({"wire": list(w), "front_end": name, "decoded_by": via, "attrs": a, "response": list(o),
